@@ -8,6 +8,9 @@
      ev "fault"    a sync attempt that met a fault (HTTP error, truncated body, corrupt archive),
                    process exited gracefully: t0 = tree the user had before, tree = after
                                                                               -> FaultKeepsTree, TreeOldOrNew, EtagSound
+     ev "iofault"  a sync attempt during which one filesystem call failed (EIO / ENOSPC injected at
+                   mutation k), the syncer's own error handling and the exit cleanup ran: tree = after
+                                                                              -> TreeOldOrNew, EtagSound
      ev "recover"  the NEXT sync (fresh process, good server) after a crash or a fault: ok, tree
                                                                               -> Recover, EtagSound   *)
 EXTENDS TarSync, TraceLib
@@ -17,7 +20,7 @@ Sound(e) == (IF EtagSound(e.etag, e.tree) THEN {} ELSE {"EtagSound"})
             \cup (IF EtagSound(e.modified, e.tree) THEN {} ELSE {"ModifiedSound"})
 Judge(e) ==
   CASE e.ev \in {"done", "again"} -> (IF RecoverOK(e.ok, e.tree) THEN {} ELSE {"Installs"}) \cup Sound(e)
-    [] e.ev = "crash"   -> (IF TreeOK(e.hadOld, e.tree) THEN {} ELSE {"TreeOldOrNew"}) \cup Sound(e)
+    [] e.ev \in {"crash", "iofault"} -> (IF TreeOK(e.hadOld, e.tree) THEN {} ELSE {"TreeOldOrNew"}) \cup Sound(e)
     [] e.ev = "fault"   -> (IF FaultKeeps(e.t0, e.tree) THEN {} ELSE {"FaultKeepsTree"})
                            \cup (IF TreeOK(e.hadOld, e.tree) THEN {} ELSE {"TreeOldOrNew"}) \cup Sound(e)
     [] e.ev = "recover" -> (IF RecoverOK(e.ok, e.tree) THEN {} ELSE {"Recover"}) \cup Sound(e)
